@@ -32,6 +32,12 @@ def gen(rng, tier, quarantine=()):
     table = dict(fns)
     qual = rng.choice(FNS)
     fnir = table[qual]
+    generated = None
+    if "no-generated-programs" not in quarantine and rng.random() < 0.4:
+        from .. import progen
+
+        generated, _ = progen.gen_program(rng, want_gen=False)
+        qual, fnir = "rf", dict(ir.all_functions(generated))["rf"]
     forms = ir.bound_names(fnir)
     names = [n for n, f in forms.items() if f != {"decl"} and n not in fnir.get("free", ())]
     cands = names + ["#value"]
@@ -99,7 +105,10 @@ def gen(rng, tier, quarantine=()):
         ops.append(op)
         if live and rng.random() < 0.3:
             ops.append({"op": "exit", "id": live.pop()})
-    return {"prog": "forms", "ops": ops}
+    sc = {"prog": "forms", "ops": ops}
+    if generated:
+        sc.update({"prog": "generated", "program": generated, "prog_name": f"gen{rng.randrange(1 << 40):x}"})
+    return sc
 
 
 def run(scenario):
